@@ -745,3 +745,11 @@ func parseAnyTemporal(s string, isTime bool) (temporal, error) {
 	return t, nil
 }
 
+
+// c13GoType15 names the System type of an item (or its FHIR message name).
+func c13GoType15(x any) string {
+	if a, ok := x.(system.Any); ok {
+		return a.Name()
+	}
+	return typeName(x)
+}
